@@ -42,16 +42,21 @@ package config
 //@   noframe
 //@   requires nw != nil && nw.logger != nil
 //@   callsite (*memoryNamespaceManager).set requires[C19] keep-last-good: len(errs) == 0
+//@   ensures[C19] parsed-files-take-effect: len(namespaces) > 0 ==> nsversion == old(nsversion) + 1
 //@   loop 1 invariant (isnil(namespaces) || fresh(namespaces)) && (forall i in 0..len(namespaces) :: namespaces[i] != nil)
 //@   loop 3 invariant (isnil(namespaces) || fresh(namespaces)) && (forall i in 0..len(namespaces) :: namespaces[i] != nil)
 //@   loop 1 step[C19] stored-reader-stays-readable: err == nil ==> has(nw.files.byPath, path) && !rdconsumed(nw.files.byPath[path])
 
 // the visible namespaces are swapped as a whole: a new map that holds every namespace handed
 // in, under its name, and nothing else
+// nsversion: ghost counter of replacements of the visible namespace set
+//@ ghostvar nsversion int
 //@ func (*memoryNamespaceManager).set
 //@   props C19
+//@   ghost-at-return nsversion := nsversion + 1
+//@   ensures nsversion == old(nsversion) + 1
 //@   requires s != nil && (forall i in 0..len(nn) :: nn[i] != nil)
-//@   modifies s.byName
+//@   modifies s.byName, nsversion
 //@   ensures[C19] whole-new-map: s.byName != nil && fresh(s.byName)
 //@   ensures[C19] every-namespace-visible: forall i in 0..len(nn) :: has(s.byName, nn[i].Name)
 //@   ensures[C19] nothing-else-visible: forall k string :: has(s.byName, k) ==> (exists i in 0..len(nn) :: nn[i].Name == k && s.byName[k] != nil)
